@@ -3,12 +3,15 @@ import PoxModel.Model.Revent
 
 * `Before`/`Sorted`/`Uniq`, `ins`/`sortDesc` lemmas: append + stable descending sort of a sorted list is sorted by
   (priority desc, subscription id asc).
-* `SrcInv`: invariant of the source state, closed under every action (`SrcClosed`, `step_src`).
+* `SrcInv`: invariant of one source state, closed under every action (`SrcClosed`: an action on the source, the
+  dispatch loop's removal, the global id counter moved by another source; `step_src`).  `Sync`: all sources carry the
+  same counter.
 * `Step`: the step function as a relation, one constructor per branch (`step_rel`); every invariant is one `cases` on it.
 * `WF`/`FrameOK`: how the frames on the stack relate to the log; `Done`: a finished delivery was exact; `Tracked`:
   a delivery is on the stack with its snapshot or `Done` — preserved by every step.
 * `MInv`: everything that holds of reachable machine states.  `Absent`/`Later`: a removed subscription stays removed
-  and is never invoked by a delivery that starts afterwards.  `GoodLog`: error suppression. -/
+  and is never invoked by a delivery on its source that starts afterwards.  `GoodLog`: error suppression.
+* `drive_eq_run` (the driver's early exit), `inited_closed` (lazy initialisation is permanent). -/
 namespace Pox.Revent
 
 /-- `a` is delivered before `b`: higher priority, or equal priority and subscribed earlier -/
@@ -108,7 +111,7 @@ structure SrcInv (s : Src) : Prop where
   bound : ∀ et l, s.handlers et = some l → ∀ e ∈ l, e.eid ≤ s.nextEid
   plain : ∀ et l, s.handlers et = some l → s.prioritized.contains et = false → ∀ e ∈ l, e.prio = 0
 
-theorem SrcInv.init (d : List Nat) (a : Bool) : SrcInv (Src.init d a) := by
+theorem SrcInv.init (d : List Nat) (a lazy : Bool) : SrcInv (Src.init d a lazy) := by
   constructor <;> intro et l h <;> simp [Src.init] at h
 
 theorem SrcInv.subs {s : Src} (h : SrcInv s) (et : Nat) :
@@ -200,7 +203,8 @@ theorem SrcInv.addCore {s : Src} (h : SrcInv s) (et hid : Nat) (prio : Int) (onc
 
 theorem removeWhere_fields (s : Src) (p : Entry → Bool) (et' : Option Nat) :
     (removeWhere s p et').1.nextEid = s.nextEid ∧ (removeWhere s p et').1.prioritized = s.prioritized ∧
-    (removeWhere s p et').1.declared = s.declared ∧ (removeWhere s p et').1.acceptAll = s.acceptAll := by
+    (removeWhere s p et').1.declared = s.declared ∧ (removeWhere s p et').1.acceptAll = s.acceptAll ∧
+    (removeWhere s p et').1.inited = s.inited := by
   cases et' with
   | none => simp [removeWhere]
   | some et =>
@@ -228,7 +232,7 @@ theorem removeWhere_handlers (s : Src) (p : Entry → Bool) (et' : Option Nat) (
 
 theorem SrcInv.removeWhere {s : Src} (h : SrcInv s) (p : Entry → Bool) (et' : Option Nat) :
     SrcInv (removeWhere s p et').1 := by
-  obtain ⟨hn, hp, -, -⟩ := removeWhere_fields s p et'
+  obtain ⟨hn, hp, -, -, -⟩ := removeWhere_fields s p et'
   constructor
   · intro k l' hk
     obtain ⟨l, hl, rfl | rfl⟩ := removeWhere_handlers s p et' k l' hk
@@ -259,63 +263,111 @@ theorem SrcInv.bindAll {s : Src} (h : SrcInv s) (hb : Nat) (prio : Int) (weak : 
     · exact ih (h.addCore et (hb + et) prio false weak)
     · exact ih h
 
+theorem SrcInv.touch {s : Src} (h : SrcInv s) : SrcInv s.touch := ⟨h.sorted, h.uniq, h.bound, h.plain⟩
+
 theorem SrcInv.doAction {s : Src} (h : SrcInv s) (a : Action) : SrcInv (doAction s a).1 := by
   cases a with
   | add et hid prio once weak =>
     simp only [Pox.Revent.doAction]; split
     · exact h.addCore et hid prio once weak
-    · exact h
+    · exact h.touch
   | bind ets hb prio weak =>
     simp only [Pox.Revent.doAction]; split
     · exact h
     · exact h.bindAll hb prio weak ets
-  | rmHandler hid et => exact h.removeWhere _ _
-  | rmEid eid et => exact h.removeWhere _ _
-  | rmPair et eid et' => exact h.removeWhere _ _
+  | rmHandler hid et => exact h.touch.removeWhere _ _
+  | rmEid eid et => exact h.touch.removeWhere _ _
+  | rmPair et eid et' => exact h.touch.removeWhere _ _
   | clear => constructor <;> intro k l hk <;> simp [Pox.Revent.doAction] at hk
   | dropOwner o => exact h.removeWhere _ _
-  | count => exact h
-  | raise et form noErr => exact h
+  | count => simp only [Pox.Revent.doAction]; split <;> exact h
+  | raise et form noErr => exact h.touch
 
 theorem SrcInv.rmEidAll {s : Src} (h : SrcInv s) (x : Nat) : SrcInv (rmEidAll s x) := h.removeWhere _ _
 
 
 /-! ### the step relation: one constructor per branch of `step` -/
 
+@[simp] theorem touch_subscribers (s : Src) (et : Nat) : s.touch.subscribers et = s.subscribers et := rfl
+@[simp] theorem touch_nextEid (s : Src) : s.touch.nextEid = s.nextEid := rfl
+@[simp] theorem updSrc_self (srcs : Nat → Src) (i : Nat) (s : Src) : updSrc srcs i s i = s := by simp [updSrc]
+
+/-- how source `j` can change when one action is performed somewhere: not at all, by an action on itself, or (an
+    action on another source `i` moved the global event-id counter) in its counter only -/
+inductive SrcStep (srcs : Nat → Src) (j : Nat) : Src → Prop
+  | same : SrcStep srcs j (srcs j)
+  | act (a : Action) : SrcStep srcs j (doAction (srcs j) a).1
+  | bump (i : Nat) (a : Action) : SrcStep srcs j { srcs j with nextEid := (doAction (srcs i) a).1.nextEid }
+
 /-- the two things `exec` can do: finish at once with a result (`quiet`), or enter a dispatch loop (`enter`) -/
 inductive ExecR (m : M) (g : Bool) : M → Prop
-  | quiet (s : Src) (r : Res) (n : Nat) (hn : m.nextFid ≤ n) (hs : s = m.src ∨ ∃ a, s = (doAction m.src a).1) :
-      ExecR m g { m with src := s, pend := some (r, g), nextFid := n }
-  | enter (et : Nat) (noErr : Bool) (hd : m.src.isDeclared et = true) :
-      ExecR m g (push { m with nextFid := m.nextFid + 1 } m.nextFid et noErr g)
+  | quiet (srcs' : Nat → Src) (r : Res) (n : Nat) (hn : m.nextFid ≤ n) (hs : ∀ j, SrcStep m.srcs j (srcs' j)) :
+      ExecR m g { m with srcs := srcs', pend := some (r, g), nextFid := n }
+  | enter (i et : Nat) (noErr : Bool) (hd : (m.srcs i).isDeclared et = true) :
+      ExecR m g (push { m with nextFid := m.nextFid + 1, srcs := updSrc m.srcs i (m.srcs i).touch } m.nextFid i et noErr g)
 
-theorem exec_rel (m : M) (a : Action) (g : Bool) : ExecR m g (exec m a g) := by
-  have hq : ∀ (s : Src) (r : Res) (n : Nat), m.nextFid ≤ n → (s = m.src ∨ ∃ a, s = (doAction m.src a).1) →
-      ExecR m g { m with src := s, pend := some (r, g), nextFid := n } := fun s r n h1 h2 => .quiet s r n h1 h2
+theorem updSrc_touch_step (srcs : Nat → Src) (i j : Nat) : SrcStep srcs j (updSrc srcs i (srcs i).touch j) := by
+  unfold updSrc
+  split
+  · rename_i h; subst h; exact .act (.raise 0 .inst false)
+  · exact .same
+
+theorem doActionM_step (srcs : Nat → Src) (i : Nat) (a : Action) (j : Nat) : SrcStep srcs j ((doActionM srcs i a).1 j) := by
+  have hset : ∀ b : Action, SrcStep srcs j (setSrc srcs i (doAction (srcs i) b).1 j) := by
+    intro b
+    unfold setSrc
+    split
+    · rename_i h; subst h; exact .act b
+    · exact .bump i b
+  cases a with
+  | dropOwner o => exact .act (.dropOwner o)
+  | add et hid prio once weak => exact hset _
+  | bind ets hb prio weak => exact hset _
+  | rmHandler hid et => exact hset _
+  | rmEid eid et => exact hset _
+  | rmPair et eid et' => exact hset _
+  | clear => exact hset _
+  | count => exact hset _
+  | raise et form noErr => exact hset _
+
+theorem exec_rel (m : M) (sa : SAct) (g : Bool) : ExecR m g (exec m sa g) := by
+  obtain ⟨i, a⟩ := sa
+  have hq : ∀ (srcs' : Nat → Src) (r : Res) (n : Nat), m.nextFid ≤ n → (∀ j, SrcStep m.srcs j (srcs' j)) →
+      ExecR m g { m with srcs := srcs', pend := some (r, g), nextFid := n } := fun s r n h1 h2 => .quiet s r n h1 h2
+  have hother : ExecR m g { m with srcs := (doActionM m.srcs i a).1, pend := some ((doActionM m.srcs i a).2, g) } :=
+    hq _ _ m.nextFid (Nat.le_refl _) (doActionM_step m.srcs i a)
   cases a with
   | raise et form noErr =>
-    have hstart : ExecR m g (if m.src.isDeclared et then push { m with nextFid := m.nextFid + 1 } m.nextFid et noErr g
-        else { m with nextFid := m.nextFid + 1, pend := some (.exc .revent, g) }) := by
+    have hm1 : ∀ r : Res, ExecR m g { m with nextFid := m.nextFid + 1, srcs := updSrc m.srcs i (m.srcs i).touch, pend := some (r, g) } :=
+      fun r => hq _ r (m.nextFid + 1) (Nat.le_succ _) (updSrc_touch_step m.srcs i)
+    have hstart : ExecR m g (if (m.srcs i).isDeclared et then
+          push { m with nextFid := m.nextFid + 1, srcs := updSrc m.srcs i (m.srcs i).touch } m.nextFid i et noErr g
+        else { m with nextFid := m.nextFid + 1, srcs := updSrc m.srcs i (m.srcs i).touch, pend := some (.exc .revent, g) }) := by
       split
-      · rename_i hd; exact .enter et noErr hd
-      · exact hq m.src _ (m.nextFid + 1) (Nat.le_succ _) (.inl rfl)
+      · rename_i hd; exact .enter i et noErr hd
+      · exact hm1 _
     simp only [exec]
     cases form with
     | inst => exact hstart
     | cls =>
       simp only
       split
-      · exact hq m.src _ (m.nextFid + 1) (Nat.le_succ _) (.inl rfl)
-      · exact hq m.src _ (m.nextFid + 1) (Nat.le_succ _) (.inl rfl)
+      · exact hm1 _
+      · exact hm1 _
       · exact hstart
-  | add et hid prio once weak => exact hq _ _ m.nextFid (Nat.le_refl _) (.inr ⟨_, rfl⟩)
-  | bind ets hb prio weak => exact hq _ _ m.nextFid (Nat.le_refl _) (.inr ⟨_, rfl⟩)
-  | rmHandler hid et => exact hq _ _ m.nextFid (Nat.le_refl _) (.inr ⟨_, rfl⟩)
-  | rmEid eid et => exact hq _ _ m.nextFid (Nat.le_refl _) (.inr ⟨_, rfl⟩)
-  | rmPair et eid et' => exact hq _ _ m.nextFid (Nat.le_refl _) (.inr ⟨_, rfl⟩)
-  | clear => exact hq _ _ m.nextFid (Nat.le_refl _) (.inr ⟨_, rfl⟩)
-  | dropOwner o => exact hq _ _ m.nextFid (Nat.le_refl _) (.inr ⟨_, rfl⟩)
-  | count => exact hq _ _ m.nextFid (Nat.le_refl _) (.inr ⟨_, rfl⟩)
+  | add et hid prio once weak => exact hother
+  | bind ets hb prio weak => exact hother
+  | rmHandler hid et => exact hother
+  | rmEid eid et => exact hother
+  | rmPair et eid et' => exact hother
+  | clear => exact hother
+  | dropOwner o => exact hother
+  | count => exact hother
+
+theorem exec_srcs {m m' : M} {g : Bool} (he : ExecR m g m') (j : Nat) : SrcStep m.srcs j (m'.srcs j) := by
+  cases he with
+  | quiet srcs' r n hn hs => exact hs j
+  | enter i et noErr hd => exact updSrc_touch_step m.srcs i j
 
 inductive Step (β : Beh) (m : M) : M → Prop
   | deliverAbort (k : Exc) (fr : Frame) (st : List Frame) (hp : m.pend = some (.exc k, false)) (hs : m.stack = fr :: st) :
@@ -323,9 +375,9 @@ inductive Step (β : Beh) (m : M) : M → Prop
   | deliver (r : Res) (g : Bool) (hp : m.pend = some (r, g)) :
       Step β m { m with pend := none, log := m.log ++ [.res r] }
   | idle : Step β m m
-  | topExec (a : Action) (as : List Action) (m' : M) (hp : m.pend = none) (hs : m.stack = [])
+  | topExec (a : SAct) (as : List SAct) (m' : M) (hp : m.pend = none) (hs : m.stack = [])
       (he : ExecR { m with todo := as } true m') : Step β m m'
-  | hExec (fr : Frame) (st : List Frame) (e : Entry) (a : Action) (g : Bool) (acts : List (Action × Bool)) (r : Ret) (m' : M)
+  | hExec (fr : Frame) (st : List Frame) (e : Entry) (a : SAct) (g : Bool) (acts : List (SAct × Bool)) (r : Ret) (m' : M)
       (hp : m.pend = none) (hs : m.stack = fr :: st) (hc : fr.cur = some (e, (a, g) :: acts, r))
       (he : ExecR { m with stack := { fr with cur := some (e, acts, r) } :: st } g m') : Step β m m'
   | hAbort (fr : Frame) (st : List Frame) (e : Entry) (k : Exc) (hp : m.pend = none) (hs : m.stack = fr :: st)
@@ -333,11 +385,12 @@ inductive Step (β : Beh) (m : M) : M → Prop
   | hRet (fr : Frame) (st : List Frame) (e : Entry) (r : Ret) (hp : m.pend = none) (hs : m.stack = fr :: st)
       (hc : fr.cur = some (e, [], r)) (hr : r.isExc = false) : Step β m (hret m fr st e r)
   | fFinish (fr : Frame) (st : List Frame) (hp : m.pend = none) (hs : m.stack = fr :: st) (hc : fr.cur = none)
-      (hr : fr.rest = []) : Step β m (finish m fr st false)
+      (hr : fr.rest = []) : Step β m (finish m fr st fr.halt)
   | fInvoke (fr : Frame) (st : List Frame) (e : Entry) (rest : List Entry) (hp : m.pend = none) (hs : m.stack = fr :: st)
       (hc : fr.cur = none) (hr : fr.rest = e :: rest) :
-      Step β m { m with log := m.log ++ [.call fr.fid e],
-                        stack := { fr with rest := rest, cur := some (e, (β e.hid m.log).acts, (β e.hid m.log).ret) } :: st }
+      Step β m { m with log := m.log ++ [.call fr.fid fr.src e],
+                        stack := { fr with rest := rest, cur := some (e, (β e.hid m.log).acts, (β e.hid m.log).ret),
+                                           halt := match (β e.hid m.log).halt with | some b => b | none => fr.halt } :: st }
 
 theorem step_rel (β : Beh) (m : M) : Step β m (step β m) := by
   unfold step
@@ -368,7 +421,6 @@ theorem step_rel (β : Beh) (m : M) : Step β m (step β m) := by
         · rename_i hr; exact .fFinish fr st hp hs hc hr
         · rename_i e rest hr; exact .fInvoke fr st e rest hp hs hc hr
 
-
 /-! ### the frame invariant -/
 
 @[simp] theorem callsOf_append (f : Nat) (l d : List Ev) : callsOf f (l ++ d) = callsOf f l ++ callsOf f d := by
@@ -391,7 +443,7 @@ def curEntry (fr : Frame) : List Entry :=
 structure FrameOK (log : List Ev) (fr : Frame) : Prop where
   calls : callsOf fr.fid log ++ fr.rest = fr.snap
   rets : callsOf fr.fid log = (retsOf fr.fid log).map (·.1) ++ curEntry fr
-  nostop : ∀ p ∈ retsOf fr.fid log, p.2.stops = false
+  nostop : ∀ p ∈ retsOf fr.fid log, stopsAt p.2.1 p.2.2 = false
 
 theorem FrameOK.of_eq {log log' : List Ev} {fr : Frame} (h : FrameOK log fr)
     (hc : callsOf fr.fid log' = callsOf fr.fid log) (hr : retsOf fr.fid log' = retsOf fr.fid log) : FrameOK log' fr :=
@@ -405,7 +457,7 @@ structure WF (m : M) : Prop where
   waiting : ∀ fr ∈ m.stack.tail, fr.cur.isSome = true
   pendcur : m.pend.isSome = true → ∀ fr ∈ m.stack.head?, fr.cur.isSome = true
 
-theorem WF.init (s : Src) (ops : List Action) : WF (M.init s ops) := by
+theorem WF.init (srcs : Nat → Src) (ops : List SAct) : WF (M.init srcs ops) := by
   constructor <;> simp [M.init, callsOf, retsOf]
 
 /-- the log grew by events that do not concern delivery `f` -/
@@ -461,10 +513,10 @@ theorem SameFor.refl (f : Nat) (log : List Ev) : SameFor f log log := ⟨rfl, rf
 theorem WF.exec {m m' : M} {g : Bool} (hw : WF m) (hp : m.pend = none)
     (htop : ∀ fr ∈ m.stack.head?, fr.cur.isSome = true) (he : ExecR m g m') : WF m' := by
   cases he with
-  | quiet s r n hn hs =>
+  | quiet srcs' r n hn hs =>
     exact ⟨hw.dec, fun fr hfr => Nat.lt_of_lt_of_le (hw.lt fr hfr) hn, hw.ok,
            fun f hf => hw.fresh f (Nat.le_trans hn hf), hw.waiting, fun _ => htop⟩
-  | enter et noErr hd =>
+  | enter i et noErr hd =>
     have hall : ∀ fr ∈ m.stack, fr.cur.isSome = true := by
       intro fr hfr
       cases hst : m.stack with
@@ -542,15 +594,14 @@ theorem WF.step {β : Beh} {m m' : M} (hw : WF m) (h : Step β m m') : WF m' := 
           simp [retsOf] at hp'
           rcases hp' with hp' | rfl
           · exact hok.nostop p hp'
-          · simp [Ret.stops, hr]; simpa using hh
+          · simpa using hh
   | fFinish fr st hp hs hc hr =>
     refine hw.pop hs rfl rfl ?_
     intro f hf
     simp [finish, SameFor, callsOf, retsOf]
   | fInvoke fr st e rest hp hs hc hr =>
     have hok := hw.ok fr (by rw [hs]; exact List.mem_cons_self)
-    refine hw.modTop (fr' := { fr with rest := rest, cur := some (e, (β e.hid m.log).acts, (β e.hid m.log).ret) })
-      hs rfl rfl rfl ?_ ?_ (by simp)
+    refine hw.modTop (fr' := _) hs rfl rfl rfl ?_ ?_ (by simp)
     · intro f hf; simp [SameFor, callsOf, retsOf, Ne.symm hf]
     · constructor
       · have := hok.calls; rw [hr] at this; simpa [callsOf] using this
@@ -570,15 +621,15 @@ theorem WF.run {β : Beh} {m : M} (hw : WF m) (n : Nat) : WF (run β n m) := by
     prefix is all of `L` unless the last one invoked stopped it (halting return value or exception). -/
 def Done (f : Nat) (L : List Entry) (log : List Ev) : Prop :=
   callsOf f log <+: L ∧ (retsOf f log).map (·.1) = callsOf f log ∧
-  (∀ p ∈ (retsOf f log).dropLast, p.2.stops = false) ∧
-  (callsOf f log = L ∨ ∃ p, (retsOf f log).getLast? = some p ∧ p.2.stops = true)
+  (∀ p ∈ (retsOf f log).dropLast, stopsAt p.2.1 p.2.2 = false) ∧
+  (callsOf f log = L ∨ ∃ p, (retsOf f log).getLast? = some p ∧ stopsAt p.2.1 p.2.2 = true)
 
-theorem done_of_stop {log log' : List Ev} {fr : Frame} {e : Entry} {acts : List (Action × Bool)} {r0 r : Ret}
-    (hok : FrameOK log fr) (hc : fr.cur = some (e, acts, r0)) (hstop : r.stops = true)
-    (hl : callsOf fr.fid log' = callsOf fr.fid log) (hr : retsOf fr.fid log' = retsOf fr.fid log ++ [(e, r)]) :
+theorem done_of_stop {log log' : List Ev} {fr : Frame} {e : Entry} {acts : List (SAct × Bool)} {r0 r : Ret} {h : Bool}
+    (hok : FrameOK log fr) (hc : fr.cur = some (e, acts, r0)) (hstop : stopsAt r h = true)
+    (hl : callsOf fr.fid log' = callsOf fr.fid log) (hr : retsOf fr.fid log' = retsOf fr.fid log ++ [(e, r, h)]) :
     Done fr.fid fr.snap log' := by
   have h2 := hok.rets; simp only [curEntry, hc] at h2
-  refine ⟨?_, ?_, ?_, .inr ⟨(e, r), ?_, hstop⟩⟩
+  refine ⟨?_, ?_, ?_, .inr ⟨(e, r, h), ?_, hstop⟩⟩
   · rw [hl]; exact ⟨fr.rest, hok.calls⟩
   · rw [hl, hr, h2]; simp
   · rw [hr]; simpa using hok.nostop
@@ -595,7 +646,7 @@ theorem done_of_exhausted {log log' : List Ev} {fr : Frame} (hok : FrameOK log f
   · rw [hr]; exact fun p hp => hok.nostop p (List.dropLast_subset _ hp)
 
 /-- same delivery: identity, event type and snapshot never change while a frame is on the stack -/
-def SameFrame (a b : Frame) : Prop := a.fid = b.fid ∧ a.snap = b.snap ∧ a.et = b.et
+def SameFrame (a b : Frame) : Prop := a.fid = b.fid ∧ a.snap = b.snap ∧ a.et = b.et ∧ a.src = b.src
 
 theorem mem_stack_cases {m : M} {fr : Frame} {st : List Frame} (hs : m.stack = fr :: st) {x : Frame} (hx : x ∈ m.stack) :
     x = fr ∨ x ∈ st := by rw [hs] at hx; exact List.mem_cons.mp hx
@@ -614,18 +665,18 @@ theorem step_frame {β : Beh} {m m' : M} (hw : WF m) (h : Step β m m') (x : Fra
       have := hw.dec; rw [hs] at this
       have := (List.pairwise_cons.mp this).1 x' (by rw [← hst]; exact hx')
       omega
-    · left; exact ⟨x, by rw [hst]; exact hx, rfl, rfl, rfl⟩
+    · left; exact ⟨x, by rw [hst]; exact hx, rfl, rfl, rfl, rfl⟩
   have hmod : ∀ {fr fr' : Frame} {st : List Frame}, m.stack = fr :: st → (∃ l, m'.stack = l ++ fr' :: st) → SameFrame fr fr' →
       (∃ x' ∈ m'.stack, SameFrame x x') := by
     intro fr fr' st hs ⟨l, hst⟩ hsf
     rcases mem_stack_cases hs hx with rfl | hx
     · exact ⟨fr', by rw [hst]; simp, hsf⟩
-    · exact ⟨x, by rw [hst]; simp [hx], rfl, rfl, rfl⟩
+    · exact ⟨x, by rw [hst]; simp [hx], rfl, rfl, rfl, rfl⟩
   have hexec : ∀ {m1 : M} {g : Bool}, ExecR m1 g m' → ∀ y ∈ m1.stack, ∃ x' ∈ m'.stack, SameFrame y x' := by
     intro m1 g he y hx1
     cases he with
-    | quiet s r n hn hs => exact ⟨y, hx1, rfl, rfl, rfl⟩
-    | enter et noErr hd => exact ⟨y, by simp [push, hx1], rfl, rfl, rfl⟩
+    | quiet srcs' r n hn hs => exact ⟨y, hx1, rfl, rfl, rfl, rfl⟩
+    | enter i et noErr hd => exact ⟨y, by simp [push, hx1], rfl, rfl, rfl, rfl⟩
   cases h with
   | deliverAbort k fr st hp hs =>
     have hok := hw.ok fr (by rw [hs]; exact List.mem_cons_self)
@@ -634,37 +685,37 @@ theorem step_frame {β : Beh} {m m' : M} (hw : WF m) (h : Step β m m') (x : Fra
     | none => simp [hcur] at hc
     | some c =>
       obtain ⟨e, acts, r⟩ := c
-      exact hpop hs rfl (done_of_stop (r := .exc k) hok hcur (by simp [Ret.stops, Ret.isExc])
+      exact hpop hs rfl (done_of_stop (r := .exc k) (h := fr.halt) hok hcur (by simp [stopsAt, Ret.isExc])
         (by simp [abort, hcur, callsOf]) (by simp [abort, hcur, retsOf]))
-  | deliver r g hp => left; exact ⟨x, hx, rfl, rfl, rfl⟩
-  | idle => left; exact ⟨x, hx, rfl, rfl, rfl⟩
+  | deliver r g hp => left; exact ⟨x, hx, rfl, rfl, rfl, rfl⟩
+  | idle => left; exact ⟨x, hx, rfl, rfl, rfl, rfl⟩
   | topExec a as m' hp hs he => rw [hs] at hx; cases hx
   | hExec fr st e a g acts r m' hp hs hc he =>
     left
     rcases mem_stack_cases hs hx with rfl | hx
-    · obtain ⟨x', hx', h1, h2, h3⟩ := hexec he { x with cur := some (e, acts, r) } (by simp)
-      exact ⟨x', hx', h1, h2, h3⟩
+    · obtain ⟨x', hx', h1, h2, h3, h4⟩ := hexec he { x with cur := some (e, acts, r) } (by simp)
+      exact ⟨x', hx', h1, h2, h3, h4⟩
     · exact hexec he x (by simp [hx])
   | hAbort fr st e k hp hs hc =>
     have hok := hw.ok fr (by rw [hs]; exact List.mem_cons_self)
-    exact hpop hs rfl (done_of_stop (r := .exc k) hok hc (by simp [Ret.stops, Ret.isExc])
+    exact hpop hs rfl (done_of_stop (r := .exc k) (h := fr.halt) hok hc (by simp [stopsAt, Ret.isExc])
       (by simp [abort, hc, callsOf]) (by simp [abort, hc, retsOf]))
   | hRet fr st e r hp hs hc hr =>
     have hok := hw.ok fr (by rw [hs]; exact List.mem_cons_self)
-    by_cases hh : r.halts = true
-    · exact hpop hs (by simp [hret, hh, finish]) (done_of_stop (r := r) hok hc (by simp [Ret.stops, hh])
+    by_cases hh : stopsAt r fr.halt = true
+    · exact hpop hs (by simp [hret, hh, finish]) (done_of_stop (r := r) (h := fr.halt) hok hc hh
         (by simp [hret, hh, finish, callsOf]) (by simp [hret, hh, finish, retsOf]))
-    · left; exact hmod (fr' := { fr with cur := none }) hs ⟨[], by simp [hret, hh]⟩ ⟨rfl, rfl, rfl⟩
+    · left; exact hmod (fr' := { fr with cur := none }) hs ⟨[], by simp [hret, hh]⟩ ⟨rfl, rfl, rfl, rfl⟩
   | fFinish fr st hp hs hc hr =>
     have hok := hw.ok fr (by rw [hs]; exact List.mem_cons_self)
     exact hpop hs rfl (done_of_exhausted hok hc hr (by simp [finish, callsOf]) (by simp [finish, retsOf]))
-  | fInvoke fr st e rest hp hs hc hr => left; exact hmod hs ⟨[], rfl⟩ ⟨rfl, rfl, rfl⟩
+  | fInvoke fr st e rest hp hs hc hr => left; exact hmod hs ⟨[], rfl⟩ ⟨rfl, rfl, rfl, rfl⟩
 
 
 theorem exec_nextFid {m m' : M} {g : Bool} (he : ExecR m g m') : m.nextFid ≤ m'.nextFid := by
   cases he with
-  | quiet s r n hn hs => exact hn
-  | enter et noErr hd => exact Nat.le_succ _
+  | quiet srcs' r n hn hs => exact hn
+  | enter i et noErr hd => exact Nat.le_succ _
 
 theorem step_nextFid {β : Beh} {m m' : M} (h : Step β m m') : m.nextFid ≤ m'.nextFid := by
   cases h with
@@ -677,48 +728,48 @@ theorem step_nextFid {β : Beh} {m m' : M} (h : Step β m m') : m.nextFid ≤ m'
     next id and its snapshot is the handler list of its event type at this very moment -/
 theorem step_new_frame {β : Beh} {m m' : M} (h : Step β m m') (x' : Frame) (hx' : x' ∈ m'.stack) :
     (∃ x ∈ m.stack, SameFrame x x') ∨
-    (x'.fid = m.nextFid ∧ x'.snap = m.src.subscribers x'.et ∧ x'.rest = x'.snap ∧ m.nextFid < m'.nextFid) := by
-  have hexec : ∀ {m1 : M} {g : Bool}, ExecR m1 g m' → m1.src = m.src → m1.nextFid = m.nextFid →
+    (x'.fid = m.nextFid ∧ x'.snap = (m.srcs x'.src).subscribers x'.et ∧ x'.rest = x'.snap ∧ m.nextFid < m'.nextFid) := by
+  have hexec : ∀ {m1 : M} {g : Bool}, ExecR m1 g m' → m1.srcs = m.srcs → m1.nextFid = m.nextFid →
       (∀ y ∈ m1.stack, ∃ x ∈ m.stack, SameFrame x y) →
       (∃ x ∈ m.stack, SameFrame x x') ∨
-      (x'.fid = m.nextFid ∧ x'.snap = m.src.subscribers x'.et ∧ x'.rest = x'.snap ∧ m.nextFid < m'.nextFid) := by
+      (x'.fid = m.nextFid ∧ x'.snap = (m.srcs x'.src).subscribers x'.et ∧ x'.rest = x'.snap ∧ m.nextFid < m'.nextFid) := by
     intro m1 g he hsrc hn hst
     cases he with
-    | quiet s r n hn' hs => left; exact hst x' hx'
-    | enter et noErr hd =>
+    | quiet srcs' r n hn' hs => left; exact hst x' hx'
+    | enter i et noErr hd =>
       simp only [push, List.mem_cons] at hx'
       rcases hx' with rfl | hx'
       · right; simp [push, hsrc, hn]
       · left; exact hst x' hx'
   have hsub : ∀ {fr : Frame} {st : List Frame} {y : Frame}, m.stack = fr :: st → y ∈ st → ∃ x ∈ m.stack, SameFrame x y :=
-    fun {_ _ y} hs hx => ⟨y, by rw [hs]; exact List.mem_cons_of_mem _ hx, rfl, rfl, rfl⟩
+    fun {_ _ y} hs hx => ⟨y, by rw [hs]; exact List.mem_cons_of_mem _ hx, rfl, rfl, rfl, rfl⟩
   cases h with
   | deliverAbort k fr st hp hs => left; exact hsub hs hx'
-  | deliver r g hp => left; exact ⟨x', hx', rfl, rfl, rfl⟩
-  | idle => left; exact ⟨x', hx', rfl, rfl, rfl⟩
-  | topExec a as m' hp hs he => exact hexec he rfl rfl (fun y hy => ⟨y, hy, rfl, rfl, rfl⟩)
+  | deliver r g hp => left; exact ⟨x', hx', rfl, rfl, rfl, rfl⟩
+  | idle => left; exact ⟨x', hx', rfl, rfl, rfl, rfl⟩
+  | topExec a as m' hp hs he => exact hexec he rfl rfl (fun y hy => ⟨y, hy, rfl, rfl, rfl, rfl⟩)
   | hExec fr st e a g acts r m' hp hs hc he =>
     refine hexec he rfl rfl ?_
     intro y hy
     simp only [List.mem_cons] at hy
     rcases hy with rfl | hy
-    · exact ⟨fr, by rw [hs]; exact List.mem_cons_self, rfl, rfl, rfl⟩
+    · exact ⟨fr, by rw [hs]; exact List.mem_cons_self, rfl, rfl, rfl, rfl⟩
     · exact hsub hs hy
   | hAbort fr st e k hp hs hc => left; exact hsub hs hx'
   | hRet fr st e r hp hs hc hr =>
     left
-    by_cases hh : r.halts = true
+    by_cases hh : stopsAt r fr.halt = true
     · simp [hret, hh, finish] at hx'; exact hsub hs hx'
     · simp [hret, hh] at hx'
       rcases hx' with rfl | hx'
-      · exact ⟨fr, by rw [hs]; exact List.mem_cons_self, rfl, rfl, rfl⟩
+      · exact ⟨fr, by rw [hs]; exact List.mem_cons_self, rfl, rfl, rfl, rfl⟩
       · exact hsub hs hx'
   | fFinish fr st hp hs hc hr => left; exact hsub hs hx'
   | fInvoke fr st e rest hp hs hc hr =>
     left
     simp only [List.mem_cons] at hx'
     rcases hx' with rfl | hx'
-    · exact ⟨fr, by rw [hs]; exact List.mem_cons_self, rfl, rfl, rfl⟩
+    · exact ⟨fr, by rw [hs]; exact List.mem_cons_self, rfl, rfl, rfl, rfl⟩
     · exact hsub hs hx'
 
 /-- a step only logs handler calls / returns of the innermost delivery -/
@@ -727,8 +778,8 @@ theorem step_same_other {β : Beh} {m m' : M} (h : Step β m m') (f : Nat) (hf :
   have hexec : ∀ {m1 : M} {g : Bool}, ExecR m1 g m' → m1.log = m.log → SameFor f m.log m'.log := by
     intro m1 g he hl
     cases he with
-    | quiet s r n hn' hs => rw [← hl]; exact SameFor.refl _ _
-    | enter et noErr hd => simp [push, SameFor, hl, callsOf, retsOf]
+    | quiet srcs' r n hn' hs => rw [← hl]; exact SameFor.refl _ _
+    | enter i et noErr hd => simp [push, SameFor, hl, callsOf, retsOf]
   cases h with
   | deliverAbort k fr st hp hs =>
     have hne : fr.fid ≠ f := hf fr (by simp [hs])
@@ -783,14 +834,14 @@ theorem Tracked.run {β : Beh} {m : M} {f : Nat} {L : List Entry} (hw : WF m) (h
     next id and its snapshot is the handler list of its event type at this very moment -/
 theorem step_push {β : Beh} {m m' : M} (h : Step β m m') (fr : Frame) (rest : List Frame) (hst : m'.stack = fr :: rest)
     (hrest : rest.length = m.stack.length) :
-    fr.fid = m.nextFid ∧ fr.snap = m.src.subscribers fr.et ∧ m.nextFid < m'.nextFid := by
+    fr.fid = m.nextFid ∧ fr.snap = (m.srcs fr.src).subscribers fr.et ∧ m.nextFid < m'.nextFid := by
   have hlen : m'.stack.length = m.stack.length + 1 := by rw [hst]; simp [hrest]
   have hexec : ∀ {m1 : M} {g : Bool}, ExecR m1 g m' → m1.stack.length = m.stack.length → m1.nextFid = m.nextFid →
-      m1.src = m.src → fr.fid = m.nextFid ∧ fr.snap = m.src.subscribers fr.et ∧ m.nextFid < m'.nextFid := by
+      m1.srcs = m.srcs → fr.fid = m.nextFid ∧ fr.snap = (m.srcs fr.src).subscribers fr.et ∧ m.nextFid < m'.nextFid := by
     intro m1 g he hl hn hsrc
     cases he with
-    | quiet s r n hn' hs => simp at hlen; omega
-    | enter et noErr hd =>
+    | quiet srcs' r n hn' hs => simp at hlen; omega
+    | enter i et noErr hd =>
       simp only [push] at hst
       have := (List.cons.inj hst).1
       subst this
@@ -803,39 +854,15 @@ theorem step_push {β : Beh} {m m' : M} (h : Step β m m') (fr : Frame) (rest : 
   | hExec fr0 st e a g acts r m' hp hs hc he => exact hexec he (by simp [hs]) rfl rfl
   | hAbort fr0 st e k hp hs hc => simp [abort, hs] at hlen; omega
   | hRet fr0 st e r hp hs hc hr =>
-    by_cases hh : r.halts = true
+    by_cases hh : stopsAt r fr0.halt = true
     · simp [hret, hh, finish, hs] at hlen; omega
     · simp [hret, hh, hs] at hlen
   | fFinish fr0 st hp hs hc hr => simp [finish, hs] at hlen; omega
   | fInvoke fr0 st e rest hp hs hc hr => simp [hs] at hlen
 
 
-/-! ### the source state along a run -/
 
-/-- a property of source states that every operation of the model preserves -/
-def SrcClosed (P : Src → Prop) : Prop :=
-  (∀ s a, P s → P (doAction s a).1) ∧ (∀ s x, P s → P (rmEidAll s x))
-
-theorem exec_src {P : Src → Prop} (hP : SrcClosed P) {m m' : M} {g : Bool} (he : ExecR m g m') (h : P m.src) : P m'.src := by
-  cases he with
-  | quiet s r n hn hs =>
-    rcases hs with rfl | ⟨a, rfl⟩
-    · exact h
-    · exact hP.1 _ a h
-  | enter et noErr hd => exact h
-
-theorem step_src {P : Src → Prop} (hP : SrcClosed P) {β : Beh} {m m' : M} (h : Step β m m') (hs : P m.src) : P m'.src := by
-  cases h with
-  | topExec a as m' hp hs' he => exact exec_src hP he hs
-  | hExec fr st e a g acts r m' hp hs' hc he => exact exec_src hP he hs
-  | hRet fr st e r hp hs' hc hr =>
-    have h1 : P (if e.once then rmEidAll m.src e.eid else m.src) := by split; exact hP.2 _ _ hs; exact hs
-    have h2 : P (if r.removes then rmEidAll (if e.once then rmEidAll m.src e.eid else m.src) e.eid
-                 else (if e.once then rmEidAll m.src e.eid else m.src)) := by split; exact hP.2 _ _ h1; exact h1
-    simp only [hret]; split <;> simpa [finish] using h2
-  | _ => simpa [abort, finish] using hs
-
-theorem srcInv_closed : SrcClosed SrcInv := ⟨fun _ a h => h.doAction a, fun _ x h => h.rmEidAll x⟩
+/-! ### the source states along a run -/
 
 theorem bindAll_nextEid (s : Src) (hb : Nat) (prio : Int) (weak : Option Nat) (ets : List Nat) :
     s.nextEid ≤ (bindAll s hb prio weak ets).1.nextEid := by
@@ -855,35 +882,161 @@ theorem doAction_nextEid (s : Src) (a : Action) : s.nextEid ≤ (doAction s a).1
   | rmEid eid et => simp only [doAction]; rw [(removeWhere_fields _ _ _).1]; exact Nat.le_refl _
   | rmPair et eid et' => simp only [doAction]; rw [(removeWhere_fields _ _ _).1]; exact Nat.le_refl _
   | dropOwner o => simp only [doAction]; rw [(removeWhere_fields _ _ _).1]; exact Nat.le_refl _
+  | count => simp only [doAction]; split <;> exact Nat.le_refl _
   | _ => exact Nat.le_refl _
+
+theorem rmEidAll_nextEid (s : Src) (x : Nat) : (rmEidAll s x).nextEid = s.nextEid := (removeWhere_fields _ _ _).1
+
+/-- the event-id counter is global: every source carries the same value -/
+def Sync (srcs : Nat → Src) : Prop := ∀ i j, (srcs i).nextEid = (srcs j).nextEid
+
+theorem doActionM_sync {srcs : Nat → Src} (h : Sync srcs) (k : Nat) (a : Action) : Sync (doActionM srcs k a).1 := by
+  have hset : ∀ b : Action, Sync (setSrc srcs k (doAction (srcs k) b).1) := by
+    intro b i j; unfold setSrc; split <;> split <;> rfl
+  cases a with
+  | dropOwner o =>
+    intro i j
+    simp only [doActionM, doAction]
+    rw [(removeWhere_fields _ _ _).1, (removeWhere_fields _ _ _).1]; exact h i j
+  | add et hid prio once weak => exact hset _
+  | bind ets hb prio weak => exact hset _
+  | rmHandler hid et => exact hset _
+  | rmEid eid et => exact hset _
+  | rmPair et eid et' => exact hset _
+  | clear => exact hset _
+  | count => exact hset _
+  | raise et form noErr => exact hset _
+
+theorem updSrc_sync {srcs : Nat → Src} (h : Sync srcs) (k : Nat) (s : Src) (hs : s.nextEid = (srcs k).nextEid) :
+    Sync (updSrc srcs k s) := by
+  intro i j; unfold updSrc
+  split <;> split
+  · rfl
+  · rw [hs]; exact h k j
+  · rw [hs]; exact h i k
+  · exact h i j
+
+theorem exec_sync {m : M} (h : Sync m.srcs) (sa : SAct) (g : Bool) : Sync (exec m sa g).srcs := by
+  obtain ⟨i, a⟩ := sa
+  have ht : Sync (updSrc m.srcs i (m.srcs i).touch) := updSrc_sync h i _ rfl
+  have hother : Sync ({ m with srcs := (doActionM m.srcs i a).1, pend := some ((doActionM m.srcs i a).2, g) } : M).srcs :=
+    doActionM_sync h i a
+  cases a with
+  | raise et form noErr =>
+    simp only [exec]
+    cases form with
+    | inst => simp only; split <;> simpa [push] using ht
+    | cls => simp only; split <;> (try split) <;> simpa [push] using ht
+  | add et hid prio once weak => exact hother
+  | bind ets hb prio weak => exact hother
+  | rmHandler hid et => exact hother
+  | rmEid eid et => exact hother
+  | rmPair et eid et' => exact hother
+  | clear => exact hother
+  | dropOwner o => exact hother
+  | count => exact hother
+
+theorem hret_sync {m : M} (h : Sync m.srcs) (fr : Frame) (st : List Frame) (e : Entry) (r : Ret) : Sync (hret m fr st e r).srcs := by
+  have : Sync (updSrc m.srcs fr.src
+      (if r.removes then rmEidAll (if e.once then rmEidAll (m.srcs fr.src) e.eid else m.srcs fr.src) e.eid
+       else (if e.once then rmEidAll (m.srcs fr.src) e.eid else m.srcs fr.src))) := by
+    apply updSrc_sync h
+    split <;> split <;> simp [rmEidAll_nextEid]
+  simp only [hret]; split <;> simpa [finish] using this
+
+theorem step_sync (β : Beh) {m : M} (h : Sync m.srcs) : Sync (step β m).srcs := by
+  unfold step
+  split
+  · split <;> simpa [abort] using h
+  · split
+    · split
+      · exact h
+      · refine exec_sync (m := _) ?_ _ _; exact h
+    · rename_i fr st hs
+      split
+      · refine exec_sync (m := _) ?_ _ _; exact h
+      · simpa [abort] using h
+      · exact hret_sync h _ _ _ _
+      · split <;> simpa [finish] using h
+
+theorem run_sync (β : Beh) {m : M} (h : Sync m.srcs) (n : Nat) : Sync (run β n m).srcs := by
+  induction n generalizing m with
+  | zero => exact h
+  | succ n ih => exact ih (step_sync β h)
+
+/-- a property of source states that every operation of the model preserves: an action on the source, the removal the
+    dispatch loop performs, and the global event-id counter moving forward because of an action elsewhere -/
+def SrcClosed (P : Src → Prop) : Prop :=
+  (∀ s a, P s → P (doAction s a).1) ∧ (∀ s x, P s → P (rmEidAll s x)) ∧
+  (∀ s n, s.nextEid ≤ n → P s → P { s with nextEid := n })
+
+theorem srcStep_closed {P : Src → Prop} (hP : SrcClosed P) {srcs : Nat → Src} (hsync : Sync srcs) {j : Nat} {s' : Src}
+    (hs : SrcStep srcs j s') (h : P (srcs j)) : P s' := by
+  cases hs with
+  | same => exact h
+  | act a => exact hP.1 _ a h
+  | bump i a => exact hP.2.2 _ _ (by rw [hsync j i]; exact doAction_nextEid _ _) h
+
+theorem exec_src {P : Src → Prop} (hP : SrcClosed P) {m m' : M} {g : Bool} (hsync : Sync m.srcs) (he : ExecR m g m')
+    (j : Nat) (h : P (m.srcs j)) : P (m'.srcs j) := srcStep_closed hP hsync (exec_srcs he j) h
+
+theorem step_src {P : Src → Prop} (hP : SrcClosed P) {β : Beh} {m m' : M} (hsync : Sync m.srcs) (h : Step β m m')
+    (j : Nat) (hs : P (m.srcs j)) : P (m'.srcs j) := by
+  cases h with
+  | topExec a as m' hp hs' he => exact exec_src hP (m := { m with todo := as }) hsync he j hs
+  | hExec fr st e a g acts r m' hp hs' hc he =>
+    exact exec_src hP (m := { m with stack := { fr with cur := some (e, acts, r) } :: st }) hsync he j hs
+  | hRet fr st e r hp hs' hc hr =>
+    have key : P ((hret m fr st e r).srcs j) := by
+      have h0 : (hret m fr st e r).srcs = updSrc m.srcs fr.src
+          (if r.removes then rmEidAll (if e.once then rmEidAll (m.srcs fr.src) e.eid else m.srcs fr.src) e.eid
+           else (if e.once then rmEidAll (m.srcs fr.src) e.eid else m.srcs fr.src)) := by
+        simp only [hret]; split <;> rfl
+      rw [h0]; unfold updSrc
+      split
+      · rename_i hj; subst hj
+        have h1 : P (if e.once then rmEidAll (m.srcs fr.src) e.eid else m.srcs fr.src) := by split; exact hP.2.1 _ _ hs; exact hs
+        split; exact hP.2.1 _ _ h1; exact h1
+      · exact hs
+    exact key
+  | _ => simpa [abort, finish] using hs
+
+theorem srcInv_closed : SrcClosed SrcInv :=
+  ⟨fun _ a h => h.doAction a, fun _ x h => h.rmEidAll x,
+   fun _ _ hn h => ⟨h.sorted, h.uniq, fun et l hl e he => Nat.le_trans (h.bound et l hl e he) hn, h.plain⟩⟩
 
 theorem nextEid_closed (n : Nat) : SrcClosed (fun s => n ≤ s.nextEid) :=
   ⟨fun s a h => Nat.le_trans h (doAction_nextEid s a),
-   fun s x h => by show n ≤ (removeWhere s _ none).1.nextEid; rw [(removeWhere_fields _ _ _).1]; exact h⟩
+   fun s x h => by show n ≤ (rmEidAll s x).nextEid; rw [rmEidAll_nextEid]; exact h,
+   fun _ _ hn h => Nat.le_trans h hn⟩
 
 /-- what holds of every reachable machine state -/
 structure MInv (m : M) : Prop where
   wf : WF m
-  src : SrcInv m.src
-  snaps : ∀ fr ∈ m.stack, Sorted fr.snap ∧ Uniq fr.snap ∧ ∀ e ∈ fr.snap, e.eid ≤ m.src.nextEid
+  sync : Sync m.srcs
+  src : ∀ i, SrcInv (m.srcs i)
+  snaps : ∀ fr ∈ m.stack, Sorted fr.snap ∧ Uniq fr.snap ∧ ∀ e ∈ fr.snap, e.eid ≤ (m.srcs fr.src).nextEid
 
-theorem MInv.init (s : Src) (hs : SrcInv s) (ops : List Action) : MInv (M.init s ops) :=
-  ⟨WF.init s ops, hs, by simp [M.init]⟩
+theorem MInv.init (srcs : Nat → Src) (hs : ∀ i, SrcInv (srcs i)) (hsync : Sync srcs) (ops : List SAct) :
+    MInv (M.init srcs ops) :=
+  ⟨WF.init srcs ops, hsync, hs, by simp [M.init]⟩
 
-theorem MInv.step {β : Beh} {m m' : M} (hi : MInv m) (h : Step β m m') : MInv m' := by
-  refine ⟨hi.wf.step h, step_src srcInv_closed h hi.src, ?_⟩
-  have hmono : m.src.nextEid ≤ m'.src.nextEid := step_src (nextEid_closed _) h (Nat.le_refl _)
+theorem MInv.step' {β : Beh} {m : M} (hi : MInv m) : MInv (step β m) := by
+  have h := step_rel β m
+  refine ⟨hi.wf.step h, step_sync β hi.sync, fun i => step_src srcInv_closed hi.sync h i (hi.src i), ?_⟩
+  have hmono : ∀ j, (m.srcs j).nextEid ≤ ((step β m).srcs j).nextEid :=
+    fun j => step_src (nextEid_closed _) hi.sync h j (Nat.le_refl _)
   intro x' hx'
-  rcases step_new_frame h x' hx' with ⟨x, hx, _, h2, _⟩ | ⟨_, h2, _⟩
+  rcases step_new_frame h x' hx' with ⟨x, hx, _, h2, _, h4⟩ | ⟨_, h2, _⟩
   · obtain ⟨a, b, c⟩ := hi.snaps x hx
-    rw [← h2]; exact ⟨a, b, fun e he => Nat.le_trans (c e he) hmono⟩
-  · obtain ⟨a, b, c, _⟩ := hi.src.subs x'.et
-    rw [h2]; exact ⟨a, b, fun e he => Nat.le_trans (c e he) hmono⟩
+    rw [← h2, ← h4]; exact ⟨a, b, fun e he => Nat.le_trans (c e he) (hmono _)⟩
+  · obtain ⟨a, b, c, _⟩ := (hi.src x'.src).subs x'.et
+    rw [h2]; exact ⟨a, b, fun e he => Nat.le_trans (c e he) (hmono _)⟩
 
 theorem MInv.run {β : Beh} {m : M} (hi : MInv m) (n : Nat) : MInv (run β n m) := by
   induction n generalizing m with
   | zero => exact hi
-  | succ n ih => exact ih (hi.step (step_rel β m))
+  | succ n ih => exact ih hi.step'
 
 /-! ### removal is permanent -/
 
@@ -940,20 +1093,23 @@ theorem Absent.bindAll {x : Nat} {s : Src} (h : Absent x s) (hb : Nat) (prio : I
     · exact ih (h.addCore et (hb + et) prio false weak)
     · exact ih h
 
+theorem Absent.touch {x : Nat} {s : Src} (h : Absent x s) : Absent x s.touch := h
+
 theorem absent_closed (x : Nat) : SrcClosed (Absent x) := by
-  constructor
+  refine ⟨?_, ?_, ?_⟩
   · intro s a h
     cases a with
-    | add et hid prio once weak => simp only [doAction]; split; exact h.addCore _ _ _ _ _; exact h
+    | add et hid prio once weak => simp only [doAction]; split; exact h.addCore _ _ _ _ _; exact h.touch
     | bind ets hb prio weak => simp only [doAction]; split; exact h; exact h.bindAll _ _ _ _
-    | rmHandler hid et => exact h.removeWhere _ _
-    | rmEid eid et => exact h.removeWhere _ _
-    | rmPair et eid et' => exact h.removeWhere _ _
+    | rmHandler hid et => exact h.touch.removeWhere _ _
+    | rmEid eid et => exact h.touch.removeWhere _ _
+    | rmPair et eid et' => exact h.touch.removeWhere _ _
     | clear => exact ⟨h.1, by intro k l hk; simp [doAction] at hk⟩
     | dropOwner o => exact h.removeWhere _ _
-    | count => exact h
-    | raise et form noErr => exact h
+    | count => simp only [doAction]; split <;> exact h
+    | raise et form noErr => exact h.touch
   · intro s y h; exact h.removeWhere _ _
+  · intro s n hn h; exact ⟨Nat.le_trans h.1 hn, h.2⟩
 
 theorem rmEidAll_absent (s : Src) (x : Nat) (hx : x ≤ s.nextEid) : Absent x (rmEidAll s x) := by
   refine ⟨by show x ≤ (removeWhere s _ none).1.nextEid; rw [(removeWhere_fields _ _ _).1]; exact hx, ?_⟩
@@ -964,72 +1120,84 @@ theorem rmEidAll_absent (s : Src) (x : Nat) (hx : x ≤ s.nextEid) : Absent x (r
   simpa [matchEid] using this
 
 
-/-- a handler call that a step logs is a call of an entry of the snapshot of a frame that was on the stack -/
-theorem step_calls {β : Beh} {m m' : M} (hw : WF m) (h : Step β m m') (f : Nat) (y : Entry) (hy : y ∈ callsOf f m'.log) :
-    y ∈ callsOf f m.log ∨ ∃ fr ∈ m.stack, fr.fid = f ∧ y ∈ fr.snap := by
-  have hexec : ∀ {m1 : M} {g : Bool}, ExecR m1 g m' → m1.log = m.log → y ∈ callsOf f m.log := by
+
+theorem mem_callsOf {f s : Nat} {e : Entry} {log : List Ev} (h : Ev.call f s e ∈ log) : e ∈ callsOf f log := by
+  induction log with
+  | nil => cases h
+  | cons ev l ih =>
+    rcases List.mem_cons.mp h with rfl | h
+    · simp [callsOf]
+    · have := ih h
+      cases ev with
+      | call f' s' e' => simp only [callsOf]; split <;> simp [this]
+      | _ => simpa only [callsOf] using this
+
+/-- a handler call that a step logs is a call of an entry of the snapshot of a frame that was on the stack, tagged with
+    that frame's source -/
+theorem step_calls {β : Beh} {m m' : M} (hw : WF m) (h : Step β m m') (f s : Nat) (y : Entry) (hy : Ev.call f s y ∈ m'.log) :
+    Ev.call f s y ∈ m.log ∨ ∃ fr ∈ m.stack, fr.fid = f ∧ fr.src = s ∧ y ∈ fr.snap := by
+  have hexec : ∀ {m1 : M} {g : Bool}, ExecR m1 g m' → m1.log = m.log → Ev.call f s y ∈ m.log := by
     intro m1 g he hl
     cases he with
-    | quiet s r n hn' hs => rw [← hl]; exact hy
-    | enter et noErr hd => simpa [push, hl, callsOf] using hy
+    | quiet srcs' r n hn' hs => rw [← hl]; exact hy
+    | enter i et noErr hd => simpa [push, hl] using hy
   cases h with
   | deliverAbort k fr st hp hs =>
     left
     simp only [abort] at hy
     cases hcur : fr.cur with
-    | none => simpa [hcur, callsOf] using hy
-    | some c => obtain ⟨e, acts, r⟩ := c; simpa [hcur, callsOf] using hy
-  | deliver r g hp => left; simpa [callsOf] using hy
+    | none => simpa [hcur] using hy
+    | some c => obtain ⟨e, acts, r⟩ := c; simpa [hcur] using hy
+  | deliver r g hp => left; simpa using hy
   | idle => exact .inl hy
   | topExec a as m' hp hs he => exact .inl (hexec he rfl)
   | hExec fr st e a g acts r m' hp hs hc he => exact .inl (hexec he rfl)
-  | hAbort fr st e k hp hs hc => left; simpa [abort, hc, callsOf] using hy
+  | hAbort fr st e k hp hs hc => left; simpa [abort, hc] using hy
   | hRet fr st e r hp hs hc hr =>
     left
-    by_cases hh : r.halts = true
-    · simpa [hret, hh, finish, callsOf] using hy
-    · simpa [hret, hh, callsOf] using hy
-  | fFinish fr st hp hs hc hr => left; simpa [finish, callsOf] using hy
+    by_cases hh : stopsAt r fr.halt = true
+    · simpa [hret, hh, finish] using hy
+    · simpa [hret, hh] using hy
+  | fFinish fr st hp hs hc hr => left; simpa [finish] using hy
   | fInvoke fr st e rest hp hs hc hr =>
-    simp only [callsOf_append, callsOf, List.mem_append] at hy
+    simp only [List.mem_append, List.mem_singleton] at hy
     rcases hy with hy | hy
     · exact .inl hy
     · right
-      split at hy
-      · rename_i hf
-        simp at hy; subst hy
-        have hok := hw.ok fr (by rw [hs]; exact List.mem_cons_self)
-        refine ⟨fr, by rw [hs]; exact List.mem_cons_self, hf, ?_⟩
-        rw [← hok.calls, hr]; simp
-      · cases hy
+      injection hy with h1 h2 h3
+      have hok := hw.ok fr (by rw [hs]; exact List.mem_cons_self)
+      refine ⟨fr, by rw [hs]; exact List.mem_cons_self, h1.symm, h2.symm, ?_⟩
+      rw [← hok.calls, hr, h3]; simp
 
-/-- subscription `x` is gone for good: it is in no handler list, and no delivery numbered `f0` or later has it in its
-    snapshot or has invoked it -/
-structure Later (x f0 : Nat) (m : M) : Prop where
-  absent : Absent x m.src
+/-- subscription `x` of source `i` is gone for good: it is in no handler list of `i`, and no delivery on `i` numbered
+    `f0` or later has it in its snapshot or has invoked it -/
+structure Later (x i f0 : Nat) (m : M) : Prop where
+  absent : Absent x (m.srcs i)
   le : f0 ≤ m.nextFid
-  frames : ∀ fr ∈ m.stack, f0 ≤ fr.fid → ∀ e ∈ fr.snap, e.eid ≠ x
-  calls : ∀ f, f0 ≤ f → ∀ e ∈ callsOf f m.log, e.eid ≠ x
+  frames : ∀ fr ∈ m.stack, fr.src = i → f0 ≤ fr.fid → ∀ e ∈ fr.snap, e.eid ≠ x
+  calls : ∀ f, f0 ≤ f → ∀ e, Ev.call f i e ∈ m.log → e.eid ≠ x
 
-theorem Later.step {β : Beh} {m m' : M} {x f0 : Nat} (hw : WF m) (h : Step β m m') (hl : Later x f0 m) : Later x f0 m' := by
-  refine ⟨step_src (absent_closed x) h hl.absent, Nat.le_trans hl.le (step_nextFid h), ?_, ?_⟩
-  · intro x' hx' hf e he
-    rcases step_new_frame h x' hx' with ⟨y, hy, h1, h2, _⟩ | ⟨_, h2, _⟩
-    · exact hl.frames y hy (by omega) e (by rw [h2]; exact he)
-    · rw [h2] at he
+theorem Later.step {β : Beh} {m m' : M} {x i f0 : Nat} (hw : WF m) (hsync : Sync m.srcs) (h : Step β m m')
+    (hl : Later x i f0 m) : Later x i f0 m' := by
+  refine ⟨step_src (absent_closed x) hsync h i hl.absent, Nat.le_trans hl.le (step_nextFid h), ?_, ?_⟩
+  · intro x' hx' hsrc hf e he
+    rcases step_new_frame h x' hx' with ⟨y, hy, h1, h2, _, h4⟩ | ⟨_, h2, _⟩
+    · exact hl.frames y hy (by rw [h4]; exact hsrc) (by omega) e (by rw [h2]; exact he)
+    · rw [h2, hsrc] at he
       unfold Src.subscribers at he
-      cases hh : m.src.handlers x'.et with
+      cases hh : (m.srcs i).handlers x'.et with
       | none => simp [hh] at he
       | some l => simp only [hh] at he; exact hl.absent.2 _ l hh e he
   · intro f hf e he
-    rcases step_calls hw h f e he with h1 | ⟨fr, hfr, hfid, h2⟩
+    rcases step_calls hw h f i e he with h1 | ⟨fr, hfr, hfid, hsrc, h2⟩
     · exact hl.calls f hf e h1
-    · exact hl.frames fr hfr (by omega) e h2
+    · exact hl.frames fr hfr hsrc (by omega) e h2
 
-theorem Later.run {β : Beh} {m : M} {x f0 : Nat} (hw : WF m) (hl : Later x f0 m) (n : Nat) : Later x f0 (run β n m) := by
+theorem Later.run {β : Beh} {m : M} {x i f0 : Nat} (hi : MInv m) (hl : Later x i f0 m) (n : Nat) :
+    Later x i f0 (run β n m) := by
   induction n generalizing m with
   | zero => exact hl
-  | succ n ih => exact ih (hw.step (step_rel β m)) (hl.step hw (step_rel β m))
+  | succ n ih => exact ih hi.step' (hl.step hi.wf hi.sync (step_rel β m))
 
 theorem step_eq_hret (β : Beh) {m : M} {fr : Frame} {st : List Frame} {e : Entry} {r : Ret} (hp : m.pend = none)
     (hs : m.stack = fr :: st) (hc : fr.cur = some (e, [], r)) (hr : r.isExc = false) : step β m = hret m fr st e r := by
@@ -1040,43 +1208,55 @@ theorem step_eq_hret (β : Beh) {m : M} {fr : Frame} {st : List Frame} {e : Entr
 /-- the moment a one-shot handler, or a handler that answers "remove me", returns -/
 theorem later_of_return {β : Beh} {m : M} (hi : MInv m) {fr : Frame} {st : List Frame} {e : Entry} {r : Ret}
     (hp : m.pend = none) (hs : m.stack = fr :: st) (hc : fr.cur = some (e, [], r)) (hr : r.isExc = false)
-    (hrem : e.once = true ∨ r.removes = true) : Later e.eid m.nextFid (step β m) := by
+    (hrem : e.once = true ∨ r.removes = true) : Later e.eid fr.src m.nextFid (step β m) := by
   rw [step_eq_hret β hp hs hc hr]
   have hfr : fr ∈ m.stack := by rw [hs]; exact List.mem_cons_self
   have hok := hi.wf.ok fr hfr
   have hmem : e ∈ fr.snap := by
     rw [← hok.calls, hok.rets]; simp [curEntry, hc]
-  have hle : e.eid ≤ m.src.nextEid := (hi.snaps fr hfr).2.2 e hmem
-  have habs : Absent e.eid (if r.removes then rmEidAll (if e.once then rmEidAll m.src e.eid else m.src) e.eid
-      else (if e.once then rmEidAll m.src e.eid else m.src)) := by
+  have hle : e.eid ≤ (m.srcs fr.src).nextEid := (hi.snaps fr hfr).2.2 e hmem
+  have habs : Absent e.eid (if r.removes then rmEidAll (if e.once then rmEidAll (m.srcs fr.src) e.eid else m.srcs fr.src) e.eid
+      else (if e.once then rmEidAll (m.srcs fr.src) e.eid else m.srcs fr.src)) := by
     by_cases ho : e.once = true
-    · have h1 : Absent e.eid (rmEidAll m.src e.eid) := rmEidAll_absent _ _ hle
+    · have h1 : Absent e.eid (rmEidAll (m.srcs fr.src) e.eid) := rmEidAll_absent _ _ hle
       simp only [ho, if_true]
       split
-      · exact (absent_closed _).2 _ _ h1
+      · exact (absent_closed _).2.1 _ _ h1
       · exact h1
     · have hr' : r.removes = true := by rcases hrem with h | h; exact absurd h ho; exact h
       simp only [ho, hr', if_true]
       exact rmEidAll_absent _ _ hle
   have hfresh := hi.wf.fresh
   have hlt : ∀ x ∈ m.stack, x.fid < m.nextFid := hi.wf.lt
-  by_cases hh : r.halts = true
+  have hnocall : ∀ f, m.nextFid ≤ f → ∀ y, Ev.call f fr.src y ∈ m.log → False := by
+    intro f hf y hy
+    have := mem_callsOf hy
+    rw [(hfresh f hf).1] at this; cases this
+  by_cases hh : stopsAt r fr.halt = true
   · refine ⟨by simpa [hret, hh, finish] using habs, by simp [hret, hh, finish], ?_, ?_⟩
-    · intro x hx hf
+    · intro x hx _ hf
       simp [hret, hh, finish] at hx
       have := hlt x (by rw [hs]; exact List.mem_cons_of_mem _ hx); omega
     · intro f hf y hy
-      have := (hfresh f hf).1
-      simp [hret, hh, finish, callsOf, this] at hy
+      simp [hret, hh, finish] at hy
+      exact (hnocall f hf y hy).elim
   · refine ⟨by simpa [hret, hh] using habs, by simp [hret, hh], ?_, ?_⟩
-    · intro x hx hf
+    · intro x hx _ hf
       simp [hret, hh] at hx
       rcases hx with rfl | hx
       · have := hlt fr hfr; simp at hf; omega
       · have := hlt x (by rw [hs]; exact List.mem_cons_of_mem _ hx); omega
     · intro f hf y hy
-      have := (hfresh f hf).1
-      simp [hret, hh, callsOf, this] at hy
+      simp [hret, hh] at hy
+      exact (hnocall f hf y hy).elim
+
+/-- in a well-formed state no delivery numbered `nextFid` or later exists yet, so an absent subscription is `Later` -/
+theorem later_of_absent {m : M} {x i : Nat} (hw : WF m) (ha : Absent x (m.srcs i)) : Later x i m.nextFid m := by
+  refine ⟨ha, Nat.le_refl _, ?_, ?_⟩
+  · intro fr hfr _ hf; have := hw.lt fr hfr; omega
+  · intro f hf e he
+    have := mem_callsOf he
+    rw [(hw.fresh f hf).1] at this; cases this
 
 /-! ### error suppression -/
 
@@ -1107,8 +1287,8 @@ theorem GoodLog.step {β : Beh} {m m' : M} (h : Step β m m') (hg : GoodLog m.lo
   have hexec : ∀ {m1 : M} {g : Bool}, ExecR m1 g m' → m1.log = m.log → GoodLog m'.log := by
     intro m1 g he hl
     cases he with
-    | quiet s r n hn' hs => rw [← hl] at hg; exact hg
-    | enter et noErr hd => simp only [push, hl]; exact hg.snoc trivial
+    | quiet srcs' r n hn' hs => rw [← hl] at hg; exact hg
+    | enter i et noErr hd => simp only [push, hl]; exact hg.snoc trivial
   cases h with
   | deliverAbort k fr st hp hs => exact abort_good (m := { m with pend := none, log := m.log ++ [.res (.exc k)] }) (hg.snoc trivial)
   | deliver r g hp => exact hg.snoc trivial
@@ -1118,9 +1298,9 @@ theorem GoodLog.step {β : Beh} {m m' : M} (h : Step β m m') (hg : GoodLog m.lo
   | hAbort fr st e k hp hs hc => exact abort_good hg
   | hRet fr st e r hp hs hc hr =>
     simp only [hret]; split
-    · exact (hg.snoc (ev := .ret fr.fid e r) trivial).snoc (ev := .endf fr.fid fr.noErr (.ok (.event true))) (by cases fr.noErr <;> trivial)
+    · exact (hg.snoc (ev := .ret fr.fid e r fr.halt) trivial).snoc (ev := .endf fr.fid fr.noErr (.ok (.event true))) (by cases fr.noErr <;> trivial)
     · exact hg.snoc trivial
-  | fFinish fr st hp hs hc hr => exact hg.snoc (ev := .endf fr.fid fr.noErr (.ok (.event false))) (by cases fr.noErr <;> trivial)
+  | fFinish fr st hp hs hc hr => exact hg.snoc (ev := .endf fr.fid fr.noErr (.ok (.event fr.halt))) (by cases fr.noErr <;> trivial)
   | fInvoke fr st e rest hp hs hc hr => exact hg.snoc trivial
 
 theorem GoodLog.run {β : Beh} {m : M} (hg : GoodLog m.log) (n : Nat) : GoodLog (run β n m).log := by
@@ -1133,8 +1313,8 @@ theorem step_log {β : Beh} {m m' : M} (h : Step β m m') : ∃ d, m'.log = m.lo
   have hexec : ∀ {m1 : M} {g : Bool}, ExecR m1 g m' → m1.log = m.log → ∃ d, m'.log = m.log ++ d := by
     intro m1 g he hl
     cases he with
-    | quiet s r n hn' hs => exact ⟨[], by simp [← hl]⟩
-    | enter et noErr hd => exact ⟨_, by simp only [push, hl]; rfl⟩
+    | quiet srcs' r n hn' hs => exact ⟨[], by simp [← hl]⟩
+    | enter i et noErr hd => exact ⟨_, by simp only [push, hl]; rfl⟩
   cases h with
   | deliverAbort k fr st hp hs => exact ⟨_, by simp only [abort, List.append_assoc]; rfl⟩
   | deliver r g hp => exact ⟨_, rfl⟩
@@ -1157,10 +1337,53 @@ theorem run_log (β : Beh) (m : M) (n : Nat) : ∃ d, (run β n m).log = m.log +
     obtain ⟨d2, h2⟩ := ih (step β m)
     exact ⟨d1 ++ d2, by simp only [run, h2, h1, List.append_assoc]⟩
 
-/-- in a well-formed state no delivery numbered `nextFid` or later exists yet, so an absent subscription is `Later` -/
-theorem later_of_absent {m : M} {x : Nat} (hw : WF m) (ha : Absent x m.src) : Later x m.nextFid m := by
-  refine ⟨ha, Nat.le_refl _, ?_, ?_⟩
-  · intro fr hfr hf; have := hw.lt fr hfr; omega
-  · intro f hf e he; rw [(hw.fresh f hf).1] at he; cases he
+
+/-! ### the driver's loop, lazy initialisation -/
+
+theorem step_finished (β : Beh) {m : M} (h : m.finished = true) : step β m = m := by
+  simp only [M.finished, Bool.and_eq_true, Option.isNone_iff_eq_none, List.isEmpty_iff] at h
+  obtain ⟨⟨hp, hs⟩, ht⟩ := h
+  unfold step; simp [hp, hs, ht]
+
+theorem run_finished (β : Beh) {m : M} (h : m.finished = true) (n : Nat) : run β n m = m := by
+  induction n with
+  | zero => rfl
+  | succ n ih => rw [run, step_finished β h, ih]
+
+/-- the compiled driver stops stepping as soon as nothing is left to do; that is the same machine state -/
+theorem drive_eq_run (β : Beh) (n : Nat) (m : M) : drive β n m = run β n m := by
+  induction n generalizing m with
+  | zero => rfl
+  | succ n ih =>
+    simp only [drive]
+    split
+    · rename_i h; exact (run_finished β h (n + 1)).symm
+    · rw [ih]; rfl
+
+theorem bindAll_inited (s : Src) (hb : Nat) (prio : Int) (weak : Option Nat) (ets : List Nat) (h : s.inited = true) :
+    (bindAll s hb prio weak ets).1.inited = true := by
+  induction ets generalizing s with
+  | nil => exact h
+  | cons et ets ih =>
+    simp only [bindAll]
+    split
+    · exact ih _ rfl
+    · exact ih s h
+
+/-- once the handler dictionary exists it exists for ever -/
+theorem inited_closed : SrcClosed (fun s => s.inited = true) := by
+  refine ⟨?_, ?_, fun _ _ _ h => h⟩
+  · intro s a h
+    cases a with
+    | add et hid prio once weak => simp only [doAction]; split <;> rfl
+    | bind ets hb prio weak => simp only [doAction]; split; exact h; exact bindAll_inited _ _ _ _ _ h
+    | rmHandler hid et => simp only [doAction]; rw [(removeWhere_fields _ _ _).2.2.2.2]; rfl
+    | rmEid eid et => simp only [doAction]; rw [(removeWhere_fields _ _ _).2.2.2.2]; rfl
+    | rmPair et eid et' => simp only [doAction]; rw [(removeWhere_fields _ _ _).2.2.2.2]; rfl
+    | clear => rfl
+    | dropOwner o => simp only [doAction]; rw [(removeWhere_fields _ _ _).2.2.2.2]; exact h
+    | count => simp only [doAction]; split <;> exact h
+    | raise et form noErr => rfl
+  · intro s x h; show (removeWhere s _ none).1.inited = true; rw [(removeWhere_fields _ _ _).2.2.2.2]; exact h
 
 end Pox.Revent
